@@ -132,6 +132,7 @@ def declare_constraint(b, c, st=None):
     elif rel == 'ge': expr = mx(b, c['lhs'], st) >= mx(b, c['rhs'], st)
     elif rel == 'eq': expr = mx(b, c['lhs'], st) == mx(b, c['rhs'], st)
     elif rel == 'box': expr = mx(b, c['lo'], st) <= (mx(b, c['lhs'], st) <= mx(b, c['hi'], st))
+    elif rel == 'vle': expr = ca.vertcat(*[mx(b, e, st) for e in c['lhs']]) <= ca.vertcat(*[mx(b, e, st) for e in c['rhs']])
     else: raise ValueError(rel)
     kw = dict(include_first=bool(c['incF']), include_last=bool(c['incL']), meta=meta)
     if c['grid'] == 'integrator': kw['grid'] = 'integrator'
@@ -140,6 +141,7 @@ def declare_constraint(b, c, st=None):
     elif c['grid'] == 'control': kw['grid'] = 'control'
     s = fr(c['scale'])
     if s != 1: kw['scale'] = float(s)
+    if rel == 'vle': kw['scale'] = ca.DM([fl(v) for v in c['vscale']])
     st.subject_to(expr, **kw)
 
 
